@@ -16,24 +16,34 @@
      awake.set    first: poll_entries; second: end of poll, timers          XAwake1 (+ XClearN, XEntries), XAwake2 (+ XTimers) *)
 EXTENDS CompatLoop, Json
 
+(* One configuration per driver serves every program: the constants describe the superset program
+     wakers w1 -> main, w2 -> t1;  reads o1 (main), o2 (t1);  timers s1 (main), s2 (t1);
+     jobs j1 (main), j2 (t1), j3 (nobody waits for it);  one task t1
+   and the initial state chooses a plan = (the subset that exists, the window the outside events are confined to).
+   What does not exist is born finished. *)
 CONSTANTS w1, w2, MaxLen,
-          JobLast,              \* targeted schedules: a job finishes only after every wake and operation has been delivered
-          JobAt, OpAt, WakeAt   \* targeted schedules: the event happens only while R is at one of these positions ({} = anywhere)
-TgtW1Main == (w1 :> "main")
-TgtW1T1 == (w1 :> "t1")
+          Plans        \* set of records [act |-> set of names, win |-> "any" | "dev1" | "dev2" | "win"]
 TgtMT == (w1 :> "main") @@ (w2 :> "t1")
-TgtNone == [w \in {} |-> "main"]
+OwnAll == ("o1" :> "main") @@ ("o2" :> "t1") @@ ("s1" :> "main") @@ ("s2" :> "t1")
+          @@ ("j1" :> "main") @@ ("j2" :> "t1") @@ ("j3" :> "none")
 WName(w) == IF w = w1 THEN "w1" ELSE "w2"
-\* programs (who waits for what)
-OwnP1 == ("o1" :> "main") @@ ("s1" :> "t1")                    \* with TgtW1T1
-OwnP2 == ("o1" :> "t1") @@ ("j1" :> "main")                    \* with TgtW1Main
-OwnP3 == ("o1" :> "main") @@ ("o2" :> "t1") @@ ("s1" :> "main") \* with TgtMT
-OwnP4 == ("o1" :> "main") @@ ("j1" :> "none")                  \* with TgtW1Main: a job nobody waits for
-OwnP7 == ("o1" :> "main") @@ ("j1" :> "main")                 \* with TgtNone: the smallest program that meets deviation 1
-OwnP5 == ("j1" :> "t1") @@ ("s1" :> "t1") @@ ("o1" :> "main")  \* with TgtNone
+P(act, win) == [act |-> act, win |-> win]
+\* the programs of the seeded simulation ...
+PlansGeneral == {P({"w1", "w2", "o1", "o2", "s1"}, "any"), P({"w2", "o1", "s2"}, "any"), P({"w1", "o2", "j1"}, "any"),
+                 P({"o1", "s2", "j2"}, "any"), P({"w1", "o1", "j3"}, "any"), P({"w1", "w2", "o2"}, "any"),
+                 P({"s1", "s2", "o1"}, "any"), P({"w1", "w2", "o1", "o2", "s1"}, "win"), P({"w2", "o1", "o2", "j2"}, "win")}
+\* ... and the schedules aimed at the two recorded deviations
+PlansTargeted == {P({"o1", "j1"}, "dev1"), P({"o2", "j2"}, "dev1"), P({"w1", "o1", "j3"}, "dev2")}
 
-VARIABLES hist
-gvars == <<allvars, hist>>
+VARIABLES hist, plan
+gvars == <<allvars, hist, plan>>
+Act == plan.act
+Has(x) == x \in Act
+JobLast == plan.win = "dev1"
+JobAt == IF plan.win = "dev1" THEN {"awake2"} ELSE IF plan.win = "dev2" THEN {"flush", "pollMain"} ELSE {}
+OpAt == IF plan.win = "dev2" THEN {"flush", "pollMain", "clear"}
+        ELSE IF plan.win = "win" THEN {"clear", "reset", "awake1", "awake2"} ELSE {}
+WakeAt == IF plan.win = "win" THEN {"flush", "clear", "reset", "awake1", "awake2"} ELSE {}
 
 \* ---- where the runtime thread is
 Pos == IF xpc = "run" THEN pcR ELSE IF xpc = "pset2" THEN "awake2" ELSE xpc
@@ -58,7 +68,8 @@ AtSite == \/ (xpc = "run" /\ pcR = "pollMain" /\ ~done)
 Asleep == xpc = "parked" /\ ~CanWakeNow /\ ~CanTurn
 EnvOK == ~Internal /\ (AtSite \/ Asleep)
 
-ObsOf(T) == {s \in Srcs : Owner[s] = T /\ got'[s]} \cup {WName(w) : w \in {x \in Wakers : Target[x] = T /\ seen'[x]}}
+ObsOf(T) == {s \in Srcs : Has(s) /\ Owner[s] = T /\ got'[s]}
+            \cup {WName(w) : w \in {x \in Wakers : Has(WName(x)) /\ Target[x] = T /\ seen'[x]}}
 RT(site, arg, obs, blk) == hist' = Append(hist, [r |-> "R", site |-> site, arg |-> arg, obs |-> obs, blocks |-> blk, at |-> Pos])
 \* at = "parked": R sleeps in the host while this happens; otherwise R stands at a site (the harness waits for it)
 ET(ev, id) == hist' = Append(hist, [r |-> "E", site |-> ev, arg |-> id, obs |-> {}, blocks |-> FALSE, at |-> Pos])
@@ -67,9 +78,27 @@ Quietly == UNCHANGED hist
 FlushFirst == pcR = "flush" /\ (XFlushArm \/ XFlush \/ XFlushReset)
 WillBlock == xpc' = "parked" /\ ~((IF host = "tokio" THEN hReady' \/ (hEdge' /\ Level') ELSE Level') \/ TimeoutNow')
 
-GInit == XInit /\ hist = <<>>
+GInit ==
+  /\ plan \in Plans /\ hist = <<>>
+  \* Wakeup!Init, a waking thread that does not exist has finished
+  /\ flag = IDLE /\ efd = FALSE /\ armed = (Driver = "poll") /\ sqNotif = FALSE /\ needPush = (Driver = "iour")
+  /\ cq = 0 /\ batch = 0 /\ owed = 0 /\ syncq = <<>> /\ pending = 0
+  /\ sched = [t \in Tasks |-> TRUE] /\ scheduling = [t \in Tasks |-> FALSE] /\ hot = TaskSeq /\ reg = {}
+  /\ cond = [w \in Wakers |-> ~Has(WName(w))] /\ seen = [w \in Wakers |-> ~Has(WName(w))]
+  /\ pcW = [w \in Wakers |-> IF Has(WName(w)) THEN "begin" ELSE "done"] /\ wNotified = [w \in Wakers |-> FALSE]
+  /\ pcR = "pollMain" /\ needWait = FALSE /\ drained = 0 /\ inKernel = FALSE
+  /\ lastPopped = "none" /\ extNotified = FALSE /\ lastOv = FALSE
+  \* CompatLoop!XInit, what does not exist has been delivered
+  /\ host \in Hosts /\ mut = "none" /\ xpc = "run"
+  /\ opSt = [o \in Ops |-> IF Has(o) THEN "new" ELSE "done"] /\ opBatch = {}
+  /\ tmSt = [t \in Timers |-> IF Has(t) THEN "new" ELSE "fired"]
+  /\ jobSt = [j \in Jobs |-> IF Has(j) THEN "new" ELSE "woke"]
+  /\ jobTaken = [j \in Jobs |-> ~Has(j)]
+  /\ got = [x \in Srcs |-> ~Has(x)]
+  /\ regSig = FALSE /\ hEdge = FALSE /\ hReady = FALSE /\ tmo = "none" /\ wres = "none"
+  /\ fin = [t \in Tasks |-> FALSE] /\ done = FALSE /\ skipped = FALSE /\ hasC = FALSE
 GNext ==
-  /\ Len(hist) < MaxLen /\ ~Finished
+  /\ Len(hist) < MaxLen /\ ~Finished /\ UNCHANGED plan
   /\ IF Internal
        THEN \* the rest of a wake / of a pool thread's completion, the host's reactor: not turns of their own
             /\ Quietly
@@ -110,10 +139,10 @@ Dead == ~Finished /\ ~Internal /\ Asleep
         /\ (\A w \in Wakers : pcW[w] = "done") /\ (\A o \in Ops : opSt[o] # "kernel")
         /\ (\A j \in Jobs : jobSt[j] # "running") /\ ~(tmo = "timer" /\ \E t \in Timers : tmSt[t] = "armed")
 Done == Finished \/ Dead \/ Len(hist) >= MaxLen
-Prog == [wakers |-> [w \in {WName(x) : x \in Wakers} |-> Target[CHOOSE x \in Wakers : WName(x) = w]],
-         ops |-> [o \in Ops |-> Owner[o]], timers |-> [t \in Timers |-> Owner[t]], jobs |-> [j \in Jobs |-> Owner[j]],
-         tasks |-> TaskSeq]
-EmitInv == Done => PrintT(<<"REPLAY", ToJson([driver |-> Driver, host |-> host, prog |-> Prog,
+Prog == [wakers |-> [w \in {WName(x) : x \in Wakers} \cap Act |-> Target[CHOOSE x \in Wakers : WName(x) = w]],
+         ops |-> [o \in Ops \cap Act |-> Owner[o]], timers |-> [t \in Timers \cap Act |-> Owner[t]],
+         jobs |-> [j \in Jobs \cap Act |-> Owner[j]], tasks |-> TaskSeq]
+EmitInv == Done => PrintT(<<"REPLAY", ToJson([driver |-> Driver, host |-> host, prog |-> Prog, win |-> plan.win,
                                               complete |-> Finished, dead |-> Dead,
                                               dev1 |-> BlockingDeviation, dev2 |-> SkippedDeviation, steps |-> hist])>>)
 =============================================================================
